@@ -236,6 +236,10 @@ where
         self.session.session_stop_reason()
     }
 
+    fn fail_unsettled_deliveries(&mut self) {
+        self.session.fail_unsettled_deliveries()
+    }
+
     fn connection_stop_reason(&self) -> &Arc<OnceLock<ConnectionStopReason>> {
         self.session.connection_stop_reason()
     }
